@@ -63,6 +63,15 @@ class Formula(BooleanLogics.Formula):
                 if isinstance(phi, str):
                     self._subformula.append(Lang.AtomicProposition(phi))
                 else:
+                    if (Lang.__name__ == __name__ and
+                            isinstance(phi, Formula) and
+                            phi.__module__ != __name__):
+                        # every temporal formula object is an instance of
+                        # PL.Formula, but it is a propositional formula only
+                        # if it is free of temporal symbols: cast_to raises
+                        # TypeError otherwise
+                        phi = phi.cast_to(Lang)
+
                     if not isinstance(phi, FormulaClass):
                         if (isinstance(phi, Lang.Formula) or
                                 not isinstance(phi, Formula)):
